@@ -501,6 +501,8 @@ func (m *modSets) implsOf(meth *types.Func) []*ssa.Function {
 
 type fnSummary struct{ all, ifTrue, ifFalse, ifNil []Fact }
 
+var closureDepth int
+
 var (
 	summaryCache = map[*ssa.Function]*fnSummary{}
 	summaryBusy  = map[*ssa.Function]bool{}
@@ -532,6 +534,15 @@ func (fl *Flow) summaryFacts(v ssa.Value, kind string) []Fact {
 		return nil
 	}
 	callee := call.Call.StaticCallee()
+	var env map[string]string
+	if callee == nil && !call.Call.IsInvoke() && kind != "all" {
+		// a call of a function value that is a known literal (a predicate built by a constructor, a local closure)
+		if _, isBuiltin := call.Call.Value.(*ssa.Builtin); !isBuiltin && closureDepth < 2 {
+			closureDepth++
+			callee, env = resolveClosure(fl, call.Call.Value)
+			closureDepth--
+		}
+	}
 	if callee == nil || callee == fl.Fn || callee.Blocks == nil || callee.Synthetic != "" ||
 		funcPkgPath(callee) != funcPkgPath(fl.Fn) || !inModule(funcPkgPath(callee)) {
 		return nil
@@ -558,16 +569,32 @@ func (fl *Flow) summaryFacts(v ssa.Value, kind string) []Fact {
 	tag := "@~" + callee.Name() + ":b${1}i${2}"
 	subst := func(k string) string {
 		k = localIDRe.ReplaceAllString(k, tag)
-		return paramRe.ReplaceAllStringFunc(k, func(m string) string {
+		k = paramRe.ReplaceAllStringFunc(k, func(m string) string {
 			var i int
 			for _, ch := range m[1:] {
 				i = i*10 + int(ch-'0')
 			}
 			if i < len(args) {
-				return fl.K.Key(args[i])
+				return "\x00" + fl.K.Key(args[i]) + "\x01"
 			}
 			return m
 		})
+		if env != nil {
+			k = derefFvRe.ReplaceAllStringFunc(k, func(m string) string {
+				if v, ok := env["*"+m[4:]]; ok {
+					return "\x00" + v + "\x01"
+				}
+				return m
+			})
+			k = fvRe.ReplaceAllStringFunc(k, func(m string) string {
+				if v, ok := env[m[3:]]; ok {
+					return "\x00" + v + "\x01"
+				}
+				return m
+			})
+		}
+		k = strings.ReplaceAll(k, "\x00", "")
+		return strings.ReplaceAll(k, "\x01", "")
 	}
 	out := make([]Fact, 0, len(src))
 	for _, f := range src {
@@ -696,7 +723,7 @@ var (
 	callIdxCache = map[*Prog]*callIndex{}
 	ctxMemo      = map[*ssa.Function]FactSet{}
 	ctxBusy      = map[*ssa.Function]bool{}
-	callerLocal  = regexp.MustCompile(`\bp\d+\b|@b\d+i\d+|\bphi@|\balloc@|\bfv:|\bv@|\bclosure:`)
+	callerLocal  = regexp.MustCompile(`\bp\d+\b|phi@|alloc@|make@|\bfv:|\bv@|\bclosure:|<-`)
 )
 
 func callIndexOf(p *Prog) *callIndex {
@@ -782,6 +809,8 @@ func contextFacts(p *Prog, fn *ssa.Function, k *Keyer) FactSet {
 			if callerLocal.MatchString(s) {
 				return "", false
 			}
+			// results of calls made by the caller keep their identity under a caller-specific tag
+			s = localIDRe.ReplaceAllString(s, "@^"+r.In.Name()+":b${1}i${2}")
 			s = strings.ReplaceAll(s, "\x00", "p")
 			s = strings.ReplaceAll(s, "\x01", "")
 			return s, true
